@@ -15,8 +15,8 @@ LEAN_MODULE = "SnowProofs.Props.C13"
 THEOREMS = [
     dict(name="Snow.C13.complete_or_raise_0D", clause="0D: one run either raises (no arrays) or returns complete statistics and arrays", strength="full"),
     dict(name="Snow.C13.complete_or_raise_1D", clause="1D: the same; exceptions are the two ValueErrors and the buffer IndexError", strength="full"),
-    dict(name="Snow.C13.complete_or_raise_fresh_0D", clause="fresh object, 0D: complete results or every accessor raises AssertionError", strength="full"),
-    dict(name="Snow.C13.complete_or_raise_fresh_1D", clause="fresh object, 1D: complete results or every accessor raises AssertionError", strength="full"),
+    dict(name="Snow.C13.complete_or_raise_fresh_0D", clause="fresh object, 0D, PRE-REPAIR run() (SnowObj.run): complete results or every accessor raises AssertionError", strength="full"),
+    dict(name="Snow.C13.complete_or_raise_fresh_1D", clause="fresh object, 1D, PRE-REPAIR run() (SnowObj.run): complete results or every accessor raises AssertionError", strength="full"),
     dict(name="Snow.C13.tfr_eq_0D", clause="0D: t_fr = t_nuc + t_sol", strength="full"),
     dict(name="Snow.C13.tfr_eq_1D", clause="1D: t_fr = t_nuc + t_sol", strength="full"),
     dict(name="Snow.C13.tsol_first_90_0D", clause="0D: t_sol is dt*i for the FIRST solidification step with sigma >= 0.9", strength="full"),
@@ -29,7 +29,7 @@ THEOREMS = [
     dict(name="Snow.C13.cool_inv", clause="1D cooling stage: every in-loop buffer write in range; rows aligned with the programme", strength="full"),
     dict(name="Snow.C13.solid_inv", clause="1D solidification stage: every in-loop buffer write in range; rows aligned", strength="full"),
     dict(name="Snow.C13.buffer_in_range", clause="1D: IndexError iff the extra post-nucleation row meets a full cooling buffer (explicit exception branch)", strength="full"),
-    dict(name="Snow.C13.history_aligned_1D", clause="1D: equal lengths i_save_end+1+(i_save-1), time = dt*step, shelfTemp = profile[step], rows in step order", strength="full"),
+    dict(name="Snow.C13.history_aligned_1D", clause="1D: i_save_end+1+(i_save-1) rows, time = dt*step, shelfTemp = profile[step], rows in step order (that the four Python arrays have EQUAL length is by construction of the model - one array of rows - and is checked on every real run, not a theorem)", strength="full"),
     dict(name="Snow.C13.time_nondecreasing_1D", clause="1D: time axis non-decreasing", strength="full"),
     dict(name="Snow.C13.history_aligned_0D", clause="0D: the four histories have one entry per programme step; shelfTemp is the programme", strength="full"),
     dict(name="Snow.C13.reused_object_partial", clause="REUSED object (state machine): a run failing in solidification after a completed one leaves new statistics with t_sol=None beside the old arrays", strength="refutation-of-old-code"),
@@ -52,6 +52,17 @@ THEOREMS = [
     dict(name="Snow.C13.study_fixed_raises", clause="sequential study, repaired run(): after a study that raised every accessor raises", strength="full"),
     dict(name="Snow.C13.study_fixed_ok", clause="sequential study, repaired run(): a completed study shows its whole table and the histories of its last repetition", strength="full"),
     dict(name="Snow.C13.runFixed_eq_runK6_observable", clause="the K7 repair does not change what single runs show", strength="full"),
+    dict(name="Snow.C13.time_is_grid_0D", clause="0D: time[j] = dt*j (hours), dt = 0.1 s", strength="full"),
+    dict(name="Snow.C13.time_nondecreasing_0D", clause="0D: time axis non-decreasing", strength="full"),
+    dict(name="Snow.C13.hlen_run1D", clause="1D: the profile the run iterates over has exactly Nt_exp samples (discharges the side hypothesis of the buffer theorems for _run_1D itself)", strength="full"),
+    dict(name="Snow.C13.buffer_in_range_run1D", clause="1D: buffer_in_range for run1D p without side hypothesis", strength="full"),
+    dict(name="Snow.C13.history_aligned_run1D", clause="1D: history alignment for run1D p without side hypothesis", strength="full"),
+    dict(name="Snow.saved_rows_from_states", clause="generic: every saved row was written from the loop state of its step", strength="full"),
+    dict(name="Snow.C13.published_solid_rows_1D", clause="1D: every published solidification row carries the ice fractions and the field of the loop state of its step", strength="full"),
+    dict(name="Snow.C13.tsol_first_90_published_1D", clause="1D: on the PUBLISHED iceMassFraction rows: integrated frozen fraction < 0.9 before the t_sol step and >= 0.9 at it", strength="full"),
+    dict(name="Snow.C13.complete_or_raise_fresh_fixed_0D", clause="0D, run() as in /repo (SnowObj.runFixed), any earlier history of the object: complete results or every accessor raises", strength="full"),
+    dict(name="Snow.C13.complete_or_raise_fresh_fixed_1D", clause="1D, run() as in /repo (SnowObj.runFixed), any earlier history of the object: complete results or every accessor raises", strength="full"),
+    dict(name="Snow.C13.published_solid_rows_2D", clause="2D: every published solidification row holds iceFrac of its step's field, and that step's 90 % test used sigmaOf of exactly these entries", strength="full"),
 ]
 TRUSTED = [
     "Lean 4.33 kernel; axioms per theorem listed under coverage.axioms",
@@ -62,6 +73,7 @@ TRUSTED = [
     "2D model SnowModel/Snowing2D.lean (work package G), flags false = the repaired code in /repo; tied here by real 2D runs",
 ]
 ASSUMPTIONS = [
+    "satisfiability of the hypothesis 'the run completed' (1D: (run1D p).exc = none; 2D: S2D.run ... = .ok r) is NOT witnessed in Lean (the models need exp/pow/sqrt, there is no computable real instance and no Transc instance of Rat); it rests on the differential runs of this check, in which the compiled model and the real code both complete on the same inputs. The 0D non-vacuity theorems are concrete completed runs over the reals.",
     "profile of Nt_exp samples (true for tempProfile, C05.profile_length); dt >= 0; Nrep = 1",
     "continuous comparisons rtol 1e-9; array lengths, step indices and exception classes exactly",
     "the object model accepts both variants of run() (current: SnowObj.run; repaired: SnowObj.runFixed) and the "
@@ -87,7 +99,7 @@ def regenerate():
     gentie.regenerate("0D")
     gentie.regenerate("1D")
 
-LEVEL_TEXT = ('Lean 4 theorems about executable models of _run_0D, _run_1D and of the object fields across successive run() calls (exact real arithmetic), tied to /repo by a differential check (all four arrays of single runs; exception class, results and array lengths of object histories). Proved in full for 0D and 1D: complete result or exception (one run; fresh object: every accessor raises AssertionError after a failed run); t_fr = t_nuc + t_sol; t_sol = dt * (first solidification step with frozen fraction >= 0.9), the fraction being computed from the field saved for that step; all times within the process; equal lengths of the four histories (1D: i_save_end + 1 + (i_save - 1) rows), time = dt * step, shelfTemp = programme[step], rows in step order hence time non-decreasing; every in-loop buffer write in range, IndexError exactly when the extra post-nucleation row meets a full cooling buffer (explicit exception branch, reproduced on the real code). Refuted for a REUSED object: a run failing in the solidification stage after a completed one leaves new statistics with t_sol = None beside the old arrays (state-machine theorem + concrete model witness, replayed: K6); with the proposed repair of run() (fixes/K6.diff) the clause is proved for every object history. The single-run clauses are proved for the 2D model as well (S2D.run returns a complete Result or an exception class; its loops are identified with the generic folds); real 2D runs are compared with it (exception class, results row, array lengths, time axis, shelf, thinned fields). PARTIAL: the object state machine (reused object) is stated for 0D/1D run outputs; for 2D the no-partial-data clause rests on complete_or_raise_2D together with the repaired run() (earlier outputs cleared), checked on real 2D runs. The per-step formulas of the 0D and 1D hand models are additionally tied by REGENERATION: harness/translate.py extracts them from /repo on every run and SnowProofs/Props/GenTie proves the generated text equal to the hand model (a changed formula breaks that proof).')
+LEVEL_TEXT = ('Lean 4 theorems about executable models of _run_0D, _run_1D and of the object fields across successive run() calls (exact real arithmetic), tied to /repo by a differential check (all four arrays of single runs; exception class, results and array lengths of object histories). Proved in full for 0D and 1D: complete result or exception (one run; fresh object: every accessor raises AssertionError after a failed run); t_fr = t_nuc + t_sol; t_sol = dt * (first solidification step with frozen fraction >= 0.9), the fraction being computed from the field saved for that step; all times within the process; number of history rows (1D: i_save_end + 1 + (i_save - 1); that the four Python arrays have equal length is by construction of the 1D model, which keeps one array of rows, and is checked on every real run; 0D: four arrays of n entries, proved), time = dt * step, shelfTemp = programme[step], rows in step order hence time non-decreasing; every in-loop buffer write in range, IndexError exactly when the extra post-nucleation row meets a full cooling buffer (explicit exception branch, reproduced on the real code). Refuted for a REUSED object: a run failing in the solidification stage after a completed one leaves new statistics with t_sol = None beside the old arrays (state-machine theorem + concrete model witness, replayed: K6); with the proposed repair of run() (fixes/K6.diff) the clause is proved for every object history. The single-run clauses are proved for the 2D model as well (S2D.run returns a complete Result or an exception class; its loops are identified with the generic folds); real 2D runs are compared with it (exception class, results row, array lengths, time axis, shelf, thinned fields). PARTIAL: the object state machine (reused object) is stated for 0D/1D run outputs; for 2D the no-partial-data clause rests on complete_or_raise_2D together with the repaired run() (earlier outputs cleared), checked on real 2D runs. The per-step formulas of the 0D and 1D hand models are additionally tied by REGENERATION: harness/translate.py extracts them from /repo on every run and SnowProofs/Props/GenTie proves the generated text equal to the hand model (a changed formula breaks that proof).')
 
 
 ARRS = ("time", "shelfTemp", "temp", "iceMassFraction")
